@@ -1541,6 +1541,8 @@ class Evaluator:
             on_self = 'self'
         else:
             return None
+        if g.name in ('events', 'simple_events', 'iterate', 'children'):
+            return None     # traversal API of the AST classes: the rules know these generators by name
         gnode = g.node
         yields = [n for n in ast.walk(gnode) if isinstance(n, (ast.Yield, ast.YieldFrom))]
         if len(yields) != 1 or not isinstance(yields[0], ast.Yield) or yields[0].value is None or g.key in self._stack or depth > 6:
